@@ -1067,7 +1067,28 @@ func (c *Conn) handleBdat(arg string) {
 		// the whole chunk.
 		io.Copy(ioutil.Discard, chunk)
 
-		c.writeResponse(dataErrorToStatus(err))
+		if c.server.LMTP && last {
+			// In LMTP the reply to BDAT LAST is one reply per accepted
+			// recipient (RFC 2033 section 4.2), also when the chunk could
+			// not be delivered.
+			select {
+			case <-c.dataResult:
+				// The delivery has ended: the statuses it has set stand,
+				// the other recipients get the error.
+				c.bdatStatus.fillRemaining(err)
+				for i, rcpt := range c.recipients {
+					code, enchCode, msg := dataErrorToStatus(<-c.bdatStatus.status[i])
+					c.writeResponse(code, enchCode, "<"+rcpt+"> "+msg)
+				}
+			default:
+				code, enchCode, msg := dataErrorToStatus(err)
+				for _, rcpt := range c.recipients {
+					c.writeResponse(code, enchCode, "<"+rcpt+"> "+msg)
+				}
+			}
+		} else {
+			c.writeResponse(dataErrorToStatus(err))
+		}
 
 		if err == errPanic {
 			c.Close()
